@@ -66,3 +66,20 @@ Definition pending (t : nat) (g : dq_shared) (l : dq_local) : list dq_ev :=
   end.
 Definition holds (l : dq_local) : list addr :=
   match dpc l with QFree _ a => [a] | _ => [] end.
+
+(* ---- a concrete concurrent run that satisfies the no-reuse guard (non-vacuity example of
+   Props/Properties_C17.v): thread 0 does push_right 1, push_right 2; thread 1 push_left 3;
+   thread 2 pop_left; thread 3 pop_right; pool of 4 chunks.  The schedule contains a helper
+   stabilising another thread's push (the pusher's own link CAS wins, the helper's fails, a third
+   thread's anchor CAS to "stable" wins and the pusher's fails), two pops racing for different
+   ends with failed anchor CASes, a push_left that has to retry twice, and two FREE steps that
+   happen in the opposite order of the pops' linearization points. ---- *)
+Definition nr_progs (t : nat) : list dop :=
+  match t with
+  | 0%nat => [Push SR 1; Push SR 2] | 1%nat => [Push SL 3] | 2%nat => [Pop SL] | 3%nat => [Pop SR]
+  | _ => []
+  end.
+Definition nr_sched_tids : list nat :=
+  ([0;0;0;0] ++ [0;0;1;1] ++ [0;0;0] ++ [1;1;1;1;1] ++ [0;0;0;0;0] ++ [1] ++ [3;3;3;3;3] ++ [0] ++
+   [2;2;2;3;3;3;1;1] ++ [2] ++ [3;1] ++ [1;1;1] ++ [3;3;3;3;3;3;3] ++ [3;3;3;3] ++ [1;1] ++ [3;2])%nat.
+Definition nr_sched : list (nat * unit) := map (fun t => (t, tt)) nr_sched_tids.
